@@ -22,11 +22,8 @@ Proof. exact mapper_matches_statement_refuted. Qed.
 Print Assumptions C17_mapper_matches_expected_refuted.
 
 (* ... with one witness per guard clause, each violating that clause only
-   (known findings C17-F1 .. F9, F11; reproduced on the real code by every run) *)
-Theorem C17_clause1_header_after_body_refuted :
-  wf_definitions witness1 = true /\ findings [] witness1 = [[1%nat]] /\ names_distinct [] witness1 = true
-  /\ no_shadow witness1 = true /\ ~ mapper_matches [] witness1.
-Proof. exact clause1_refuted. Qed.
+   (open known findings C17-F2, F3, F5-F8, F11; reproduced on the real code by every run;
+   clauses 1, 4, 9 were deleted when F1, F4, F9 were repaired in /repo) *)
 Theorem C17_clause2_rpc_response_name_refuted :
   wf_definitions witness2 = true /\ findings [] witness2 = [[2%nat]] /\ names_distinct [] witness2 = true
   /\ no_shadow witness2 = true /\ ~ mapper_matches [] witness2.
@@ -57,7 +54,7 @@ Theorem C17_clause10_message_shadows_element_refuted :
 Proof. exact clause10_refuted. Qed.
 Print Assumptions C17_clause10_message_shadows_element_refuted.
 
-(* the theorem: unbounded over all documents of the fragment that satisfy the ten clauses
+(* the theorem: unbounded over all documents of the fragment that satisfy the seven remaining clauses
    (any number of services, ports, bindings, operations, parts, headers, faults; document
    and rpc; parts by element and by type; any prefixes and local namespace declarations) *)
 Theorem C17_mapper_matches_expected : forall te d,
